@@ -25,7 +25,7 @@ NSEA = {'json': 2, 'pysnmp': 4}
 SUFFIX = {'json': '.json', 'pysnmp': '.py'}
 
 DUMP_CFG = '''CONSTANTS
-  NSrc = 1
+  NSrc = 2
   NSea = {nsea}
   NBor = 1
   ReqSet = {{}}
@@ -48,12 +48,14 @@ DUMP_SLICES = {
     'quick': [('usage-json', 'json', 'Dom_usage', 'KeepAll', None), ('usage-pysnmp', 'pysnmp', 'Dom_usage', 'KeepAll', None),
               ('status-json', 'json', 'Dom_status', 'Keep_status_q', 1200),
               ('graph-json', 'json', 'Dom_graph', 'Keep_graph_q', 900),
-              ('report-json', 'json', 'Dom_report', 'KeepAll', 700),
+              ('report-json', 'json', 'Dom_report', 'KeepAll', 600),
+              ('sources-json', 'json', 'Dom_sources', 'KeepAll', 500),
               ('report-pysnmp', 'pysnmp', 'Dom_report', 'Keep_report_q', 300)],
     'thorough': [('usage-json', 'json', 'Dom_usage', 'KeepAll', None), ('usage-pysnmp', 'pysnmp', 'Dom_usage', 'KeepAll', None),
                  ('status-json', 'json', 'Dom_status', 'KeepAll', None),
                  ('graph-json', 'json', 'Dom_graph', 'KeepAll', None),
                  ('report-json', 'json', 'Dom_report', 'KeepAll', None),
+                 ('sources-json', 'json', 'Dom_sources', 'KeepAll', None),
                  ('report-pysnmp', 'pysnmp', 'Dom_report', 'KeepAll', None),
                  ('status-pysnmp', 'pysnmp', 'Dom_status', 'Keep_status_q', 4000)],
 }
@@ -66,7 +68,10 @@ def module_text(name, w):
     imports_other = w['imp'] in (('AB', 'both') if a else ('BA', 'both'))
     t = '%s DEFINITIONS ::= BEGIN\nIMPORTS enterprises, MODULE-IDENTITY FROM SNMPv2-SMI' % name
     if imports_other:
-        t += '\n    %s FROM %s' % ('bRoot' if a else 'aId', 'BB-MIB' if a else 'AA-MIB')
+        other_name = 'BB-MIB' if a else 'AA-MIB'
+        if w.get('spell') == 'variant':
+            other_name = 'Bb-Mib' if a else 'Aa-Mib'
+        t += '\n    %s FROM %s' % ('bRoot' if a else 'aId', other_name)
     t += ';\n%sId MODULE-IDENTITY LAST-UPDATED "200001010000Z" ORGANIZATION "o" CONTACT-INFO "c" DESCRIPTION "d"\n' % me
     t += '    ::= { enterprises %d }\n' % (4710 if a else 4711)
     parent = ('bRoot' if a else 'aId') if imports_other else me + 'Id'
@@ -80,11 +85,15 @@ def _put(path, text, mtime):
     os.utime(path, (mtime, mtime))
 
 
-def materialise(w, fmt, root):
-    """-> (argv, dst directory)"""
-    src, bor, dst = (os.path.join(root, x) for x in ('src', 'bor', 'dst'))
-    for d in (src, bor, dst):
+CLI_TIMES = {'src': (T0, T0), 'bor': T0, 'fresh': T0 + 100, 'stale': T0 - 100}
+
+
+def build_world(w, fmt, root, times=CLI_TIMES):
+    """Write the world to disk: root/src, root/src2, root/bor, root/dst."""
+    src, src2, bor, dst = (os.path.join(root, x) for x in ('src', 'src2', 'bor', 'dst'))
+    for d in (src, src2, bor, dst):
         os.makedirs(d)
+    T0 = times['src'][0]
     if w['base']:
         for n in ('SNMPv2-SMI', 'SNMPv2-TC', 'SNMPv2-CONF'):
             _put(os.path.join(src, n + '.txt'), mibs.BASE[n], T0)
@@ -95,16 +104,26 @@ def materialise(w, fmt, root):
             _put(os.path.join(src, n + '.txt'), module_text(n, w).replace('END\n', '::= ::= END\n'), T0)
     if w['alias']:
         _put(os.path.join(src, 'afile.txt'), module_text('AA-MIB', w), T0)
+    if w['src2A'] == 'ok':
+        _put(os.path.join(src2, 'AA-MIB.txt'), module_text('AA-MIB', w).replace('DESCRIPTION "d"', 'DESCRIPTION "second"'), times['src'][1])
+    elif w['src2A'] == 'broken':
+        _put(os.path.join(src2, 'AA-MIB.txt'), module_text('AA-MIB', w).replace('END\n', '::= ::= END\n'), times['src'][1])
     sfx = SUFFIX[fmt]
     borrowed = {'json': '{"borrowed": "%s"}\n', 'pysnmp': '# borrowed %s\nx = 1\n'}[fmt]
     for n, b in (('AA-MIB', w['borA']), ('BB-MIB', w['borB'])):
         if b:
-            _put(os.path.join(bor, n + sfx), borrowed % n, T0)
+            _put(os.path.join(bor, n + sfx), borrowed % n, times['bor'])
     old = {'json': '{"old": "%s"}\n', 'pysnmp': '# old %s\nx = 0\n'}[fmt]
     for n, st in (('AA-MIB', w['dstA']), ('BB-MIB', w['dstB'])):
         if st != 'absent':
-            _put(os.path.join(dst, n + sfx), old % n, T0 + (100 if st == 'fresh' else -100))
-    argv = ['--mib-source=file://' + src]
+            _put(os.path.join(dst, n + sfx), old % n, times['fresh'] if st == 'fresh' else times['stale'])
+    return src, src2, bor, dst
+
+
+def materialise(w, fmt, root):
+    """-> (argv, dst directory)"""
+    src, src2, bor, dst = build_world(w, fmt, root)
+    argv = ['--mib-source=file://' + src, '--mib-source=file://' + src2]
     if w['texts'] == 'before':
         argv.append('--generate-mib-texts')
     argv.append('--mib-borrower=file://' + bor)
@@ -153,7 +172,7 @@ def observe_dump(w, fmt, root, how='inproc'):
     if how != 'inproc':
         obs.pop('proc'), obs.pop('ncompiles'), obs.pop('completed')
     extra = {'argv': argv, 'stderr_tail': r['stderr'][-600:], 'escaped': r.get('escaped'),
-             'cwd_litter': sorted(x for x in os.listdir(root) if x not in ('src', 'bor', 'dst'))}
+             'cwd_litter': sorted(x for x in os.listdir(root) if x not in ('src', 'src2', 'bor', 'dst'))}
     return obs, extra
 
 
@@ -176,8 +195,8 @@ def _dump_job(job):
 
 def brief_world(w, fmt):
     flags = [k for k in ('noDeps', 'rebuild', 'ignoreErrors', 'noWrites', 'dryRun', 'buildIndex', 'quiet', 'alias') if w[k]]
-    return '%s req=%s src=%s/%s imp=%s dst=%s/%s bor=%d%d base=%d texts=%s usage=%s %s' % (
-        fmt, ','.join(w['req']), w['srcA'], w['srcB'], w['imp'], w['dstA'], w['dstB'], w['borA'], w['borB'], w['base'],
+    return '%s req=%s src=%s+%s/%s imp=%s%s dst=%s/%s bor=%d%d base=%d texts=%s usage=%s %s' % (
+        fmt, ','.join(w['req']), w['srcA'], w['src2A'], w['srcB'], w['imp'], '~' if w.get('spell') == 'variant' else '', w['dstA'], w['dstB'], w['borA'], w['borB'], w['base'],
         w['texts'], w['usage'], '+'.join(flags))
 
 
